@@ -161,6 +161,13 @@ func (s *segmentTimelineGenerator) resize(newBufferSize uint32) {
 	s.bufferSize = newBufferSize
 }
 
+// dropBefore drops the segments of a track with sequence number lower than seqNr from its buffer.
+func (s *segmentTimelineGenerator) dropBefore(trName string, seqNr uint32) {
+	if sdb, ok := s.segDataBuffers[trName]; ok {
+		sdb.dropBefore(seqNr)
+	}
+}
+
 func (s *segmentTimelineGenerator) dropSeqNr(seqNr uint32) {
 	for _, buf := range s.segDataBuffers {
 		buf.dropSeqNr(seqNr)
